@@ -498,7 +498,10 @@ class Unit:
         expr = str(self.expr)
         base_value = copy.deepcopy(self.base_value)
         base_offset = copy.deepcopy(self.base_offset)
-        dimensions = copy.deepcopy(self.dimensions)
+        # sympy expressions are immutable; a deep copy would be equal but not
+        # identical to unyt's dimension singletons, which are compared by
+        # identity throughout the library
+        dimensions = self.dimensions
         if deep:
             registry = copy.deepcopy(self.registry)
         else:
